@@ -1924,6 +1924,45 @@ class QuantifiedConditional(LogicalBinaryOperator, ABC):
     def condition(self, value):
         self.right = value
 
+    @cached_property
+    def _ids_bound_by_this_quantifier_(self) -> typing.Set[int]:
+        """
+        :return: The ids of the quantified variable and of all expressions of the condition that are computed from it
+            (e.g., an attribute of it). The same expression objects can be used elsewhere in the query, values that were
+            bound there are not in the scope of this quantifier.
+        """
+        ids = {self.variable._id_}
+
+        def collect(expression) -> bool:
+            """
+            :return: Whether the expression is the quantified variable or has it among its operands.
+            """
+            if not isinstance(expression, SymbolicExpression):
+                return False
+            if expression is self.variable:
+                return True
+            # look into the instance dictionary, attribute access on a variable creates a symbolic attribute
+            operands = [expression.__dict__.get(name) for name in ("left", "right", "_child_")]
+            operands.extend(expression.__dict__.get("_child_vars_", {}).values())
+            # evaluate all operands, every one of them can contain further expressions over the variable
+            is_computed_from_the_variable = any([collect(operand) for operand in operands])
+            if is_computed_from_the_variable:
+                ids.add(expression._id_)
+            return is_computed_from_the_variable
+
+        collect(self.condition)
+        return ids
+
+    def _without_values_bound_outside_(
+        self, sources: Dict[int, HashedValue]
+    ) -> Dict[int, HashedValue]:
+        """
+        :return: The bindings without the values of the quantified variable and of the expressions computed from it.
+        """
+        return {
+            k: v for k, v in sources.items() if k not in self._ids_bound_by_this_quantifier_
+        }
+
 
 @dataclass(eq=False, repr=False)
 class ForAll(QuantifiedConditional):
@@ -1956,7 +1995,7 @@ class ForAll(QuantifiedConditional):
         # the quantifier ranges over all values of its variable, a value that was bound outside (e.g., a witness of a
         # preceding exists over the same variable) is not in its scope.
         outer_sources = sources
-        sources = {k: v for k, v in sources.items() if k != self.variable._id_}
+        sources = self._without_values_bound_outside_(sources)
 
         for var_val in self.variable._evaluate__(sources, parent=self):
             if solution_set is None:
@@ -2022,7 +2061,7 @@ class Exists(QuantifiedConditional):
         self._eval_parent_ = parent
         seen_var_values = []
         # the quantifier looks for a value of its variable itself, a value that was bound outside is not in its scope.
-        sources = {k: v for k, v in sources.items() if k != self.variable._id_}
+        sources = self._without_values_bound_outside_(sources)
         for val in self.condition._evaluate__(sources, parent=self):
             if val.is_false:
                 continue
